@@ -243,6 +243,8 @@ class NumpyStub:
         if isinstance(a, TArr) or isinstance(b, TArr):
             from . import tarr
             return tarr.binary(self, op, a, b)
+        if isinstance(a, SliceArr) or isinstance(b, SliceArr):
+            return SliceArr.binary(self, op, a, b)
         if op in ("<<", ">>", "@"):
             raise Untranslatable(f"array operator {op}")
         for x in (a, b):
@@ -339,7 +341,12 @@ class NumpyStub:
             idx = self.as_arr(idx)
         if isinstance(idx, Arr) and idx.dtype.kind == "b":
             return self.mask_select(a, idx)
+        if isinstance(a, SliceArr):
+            raise Untranslatable("indexing a slice with symbolic bounds")
         items = self.norm_index(a, idx)
+        if (a.ndim == 1 and len(items) == 1 and isinstance(items[0], slice)
+                and any(isinstance(raw(c), Sym) and isinstance(raw(concretize(raw(c))), Sym) for c in (items[0].start, items[0].stop))):
+            return self.sym_slice_1d(a, items[0])
         if any(isinstance(x, (Arr, list)) for x in items):
             return self.advanced_index(a, items)
         # basic indexing (+ symbolic integers)
@@ -438,6 +445,21 @@ class NumpyStub:
 
     def sym_slice(self, s, n):
         raise Untranslatable("slice with symbolic bounds on a concrete-extent array")
+
+    def sym_slice_1d(self, a, s):
+        """a[lo:hi] with symbolic bounds on a 1-D concrete-extent array -> SliceArr (masked view)."""
+        if s.step is not None and raw(s.step) != 1:
+            raise Untranslatable("strided slice with symbolic bounds")
+        n = a.shape[0]
+
+        def bound(v, default):
+            if v is None:
+                return z3.IntVal(default)
+            t = term_of(raw(v), "int")
+            t = z3.If(t < 0, t + n, t)
+            return z3.simplify(z3.If(t < 0, 0, z3.If(t > n, n, t)))
+        lo, hi = bound(s.start, 0), bound(s.stop, n)
+        return SliceArr(a, lo, hi)
 
     def mask_select(self, a, mask):
         I = self.I
@@ -613,6 +635,13 @@ class NumpyStub:
         if isinstance(a, TArr):
             from . import tarr
             return tarr.array_attr(self, a, name)
+        if isinstance(a, SliceArr):
+            if name in ("size",):
+                return a.sym_len
+            if name == "shape":
+                return (a.sym_len,)
+            if name not in ("sum", "dtype", "ndim"):
+                raise Untranslatable(f"ndarray.{name} on a slice with symbolic bounds")
         if name == "shape":
             return a.shape
         if name == "ndim":
@@ -629,6 +658,8 @@ class NumpyStub:
             return None
         m = getattr(self, "m_" + name, None)
         if m is None:
+            if not hasattr(_np.ndarray, name):
+                raise Raised(AttributeError(f"'numpy.ndarray' object has no attribute '{name}'"))
             raise Untranslatable(f"ndarray.{name}")
         self.I.stub_log.add("ndarray." + name)
         return Builtin("ndarray." + name, lambda *args, **kw: m(a, *args, **kw))
@@ -838,6 +869,8 @@ class NumpyStub:
 
     def m_sum(self, a, axis=None, dtype=None, **k):
         dt = _np.ones(1, a.dtype).sum().dtype if dtype is None else _np.dtype(dtype)
+        if isinstance(a, SliceArr):
+            return a.masked_sum(self, dt)
         res, shape = self.axis_reduce(a, axis, self._sum_list(dt))
         return self._wrap_reduce(res, shape, dt)
 
@@ -1035,7 +1068,10 @@ class NumpyStub:
         if any(isinstance(v, Sym) for v in vals):
             vals = [raw(concretize(v)) if isinstance(v, Sym) else v for v in vals]
         if any(isinstance(v, Sym) for v in vals):
-            raise Untranslatable("np.arange with symbolic bounds (concrete-extent mode)")
+            if len(vals) == 1:
+                from . import tarr
+                return tarr.arange(self, vals[0], dtype)
+            raise Untranslatable("np.arange(start, stop) with symbolic bounds")
         r = _np.arange(*vals, dtype=dtype)
         return self.mk_arr([x.item() for x in r], r.shape, r.dtype)
 
@@ -1380,19 +1416,20 @@ class NumpyStub:
         if all(not isinstance(e, Sym) for e in el):
             order = sorted(range(n), key=lambda i: el[i])
             return Arr.from_list(order, (n,), _np.int64)
-        ctx = self.I.ctx
-        ps = [z3.Int(ctx.fresh_name(f"argsort_p{i}")) for i in range(n)]
-        for p in ps:
-            ctx.assume(z3.And(p >= 0, p < n), "stub argsort: range")
-        if n > 1:
-            ctx.assume(z3.Distinct(*ps), "stub argsort: permutation")
-        tmp = Arr.from_list([Sym(p, "int", True) for p in ps], (n,), _np.int64)
-        srt = self.advanced_index(a, [tmp])
-        se = srt.elems()
-        for i in range(n - 1):
-            c = compare("<=", se[i], se[i + 1])
-            ctx.assume(c if isinstance(c, bool) else c.t, "stub argsort: sorted")
-        return tmp
+        # concrete-extent semantics: the order is decided by branching on pairwise comparisons (one path per
+        # ordering); ties are resolved stably -- numpy does not promise that, but equal keys are interchangeable
+        # for every clause that uses the result (assumption recorded in the evidence).
+        order = []
+        for i in range(n):
+            pos = len(order)
+            for k2, j in enumerate(order):
+                c = compare("<", el[i], el[j])
+                lt = c if isinstance(c, bool) else self.I.ctx.branch(c.t)
+                if lt:
+                    pos = k2
+                    break
+            order.insert(pos, i)
+        return Arr.from_list(order, (n,), _np.int64)
 
     def f_sort(self, a, **k):
         a = self.as_arr(a)
@@ -1568,6 +1605,58 @@ class NumpyStub:
 
     def f_dtype(self, *a, **k):   # shadowed by the real type in d["dtype"]; kept for completeness
         return self.call_type(_np.dtype, a, k)
+
+
+class SliceArr(Arr):
+    """a[lo:hi] of a 1-D concrete-extent array with *symbolic* bounds (0 <= lo, hi <= n, already normalised).
+    Kept as the base elements plus the bounds; supports only sum(), size and element-wise arithmetic with scalars
+    or with slices that have the same bounds."""
+
+    __slots__ = ("lo", "hi", "vals")
+
+    def __init__(self, base, lo, hi, vals=None, dtype=None):
+        Arr.__init__(self, base.store, list(base.pos), base.shape, dtype or base.dtype)
+        self.lo = lo
+        self.hi = hi
+        self.vals = vals      # transformed element values (None: read from the base)
+
+    def base_elems(self):
+        return self.vals if self.vals is not None else [self.store[p] for p in self.pos]
+
+    def elems(self):
+        raise Untranslatable("elements of a slice with symbolic bounds")
+
+    @property
+    def sym_len(self):
+        return mk(simp(z3.If(self.hi > self.lo, self.hi - self.lo, 0)), "int")
+
+    def masked_sum(self, np_, dt):
+        acc = 0 if dt.kind in "iu" else 0.0
+        for j, e in enumerate(self.base_elems()):
+            inside = mk(simp(z3.And(self.lo <= j, j < self.hi)), "bool")
+            zero = 0 if dt.kind in "iu" else 0.0
+            if isinstance(e, bool):
+                e = int(e)
+            term = e if inside is True else (zero if inside is False else raw(ite(inside, e, zero)))
+            acc = np_.scalar_op("+", acc, term)
+        return elem_scalar(cast_elem(acc, dt), dt)
+
+    @staticmethod
+    def binary(np_, op, a, b):
+        sa = a if isinstance(a, SliceArr) else None
+        sb = b if isinstance(b, SliceArr) else None
+        if sa is not None and sb is not None:
+            if not (z3.eq(sa.lo, sb.lo) and z3.eq(sa.hi, sb.hi)):
+                raise Untranslatable("arithmetic on slices with different symbolic bounds")
+        for x in (a, b):
+            if isinstance(x, Arr) and not isinstance(x, SliceArr):
+                raise Untranslatable("arithmetic between a symbolic-bound slice and an array")
+        ref = sa or sb
+        dt = np_.result_dtype(op, Arr.from_list([0], (1,), sa.dtype) if sa else a, Arr.from_list([0], (1,), sb.dtype) if sb else b)
+        ea = sa.base_elems() if sa else [raw(a)] * ref.shape[0]
+        eb = sb.base_elems() if sb else [raw(b)] * ref.shape[0]
+        vals = [cast_elem(np_.scalar_op(op, x, y), dt) for x, y in zip(ea, eb)]
+        return SliceArr(ref, ref.lo, ref.hi, vals, dt)
 
 
 class SymView:
